@@ -1,5 +1,5 @@
 (* C02 -- data channel traffic always drains: the no-deadlock invariants of the sender.
-   Property theorems only; proofs in Proof/SctpTxP.v.
+   Property theorems only; proofs in Proof/SctpTxP.v and Proof/SctpTxLiveP.v.
 
    The sender model (Model/SctpTx.v) takes ANY list of inputs: messages handed to
    _send (fragments with non-negative sizes), SACK chunks with ANY cumulative TSN and
@@ -8,7 +8,8 @@
    expiries at any moment it is armed, and the deferred _transmit task at any moment.
    Lost DATA packets need no input of their own: the chunk simply stays outstanding. *)
 From Coq Require Import ZArith List Bool.
-From AV Require Import Gen.SctpConst Model.SctpTx Proof.SctpTxP.
+From AV Require Proof.SctpDupP.
+From AV Require Import Gen.SctpConst Model.SctpTx Proof.SctpTxP Proof.SctpTxLiveP.
 Import ListNotations.
 Local Open Scope Z_scope.
 
@@ -51,14 +52,40 @@ Theorem C02_step_invariant : forall s i, inv s -> wf_input i -> inv (fst (step s
 Proof. exact step_inv. Qed.
 Print Assumptions C02_step_invariant.
 
-(* PARTIAL.  Proved: the sender can never reach a state with work left and nothing
-   armed (the three stall mechanisms repaired in /repo -- flight-size drift, lost
-   FORWARD-TSN, orphan fragments -- are exactly violations of these invariants or of
-   C06).  NOT proved: termination of the healing rounds ("within bounded time both
-   endpoints are quiescent").  That needs the composition of two endpoints with a
-   fair network and a progress measure; it is observed by the two-endpoint simulator
-   (fault prefix, then fault-free delivery and timer firings until quiescence) on
-   every run.  Real time (RTO values) is outside every theorem. *)
+(* 4. No reachable sender state is wedged.  After ANY history -- messages handed to _send
+   with the next TSNs (wf_ord: inside a window of N < 2^31 TSNs after `base`), SACKs with any
+   32-bit cumulative TSN and any gap blocks (every loss / duplication / reordering of
+   acknowledgements, stale and nonsensical ones), T3 expiries, transmit runs -- the
+   fault-free continuation `drain` (the peer acknowledges the last TSN sent; the pending
+   transmit task runs) reaches quiescence within 2 * (outstanding + queued) inputs: sent
+   queue and outbound queue empty, flight size 0.  So no finite fault history can leave the
+   sender permanently unable to make progress.  (The proof is an order invariant: the TSNs of
+   sent queue ++ outbound queue are the consecutive run after max(last SACKed, advanced ack
+   point); an acceptable SACK never acknowledges beyond what was sent -- the guard repaired
+   in /repo -- so it pops a prefix and the measure strictly decreases.) *)
+Theorem C02_never_wedged : forall base N t rw ins,
+  SctpDupP.r32 base -> 0 <= N < 2147483648 -> SctpDupP.inw base N (tsn_minus_one t) ->
+  Forall wf_input ins -> wf_ord_run base N (init t rw) ins ->
+  let s := fst (run (init t rw) ins) in
+  let cont := drain (2 * length (sentq s ++ outq s)) s in
+  let s' := fst (run s cont) in
+  Forall wf_input cont /\ sentq s' = [] /\ outq s' = [] /\ flight s' = 0.
+Proof. exact never_wedged. Qed.
+Print Assumptions C02_never_wedged.
+
+(* 5. The order invariant itself, for every reachable state. *)
+Theorem C02_tsn_order : forall base N t rw ins,
+  SctpDupP.r32 base -> 0 <= N < 2147483648 -> SctpDupP.inw base N (tsn_minus_one t) ->
+  wf_ord_run base N (init t rw) ins -> ord base N (fst (run (init t rw) ins)).
+Proof. intros base N t rw ins Hb HN Ht Hw. exact (run_ord base N Hb HN ins _ (ord_init base N t rw Ht) Hw). Qed.
+Print Assumptions C02_tsn_order.
+
+(* PARTIAL.  Proved: no deadlock state (1-3) and, from every reachable state, drainage by the
+   fault-free continuation with an ideal peer (4).  NOT proved: that the REAL peer plus a
+   fault-free network produce such a continuation within bounded time -- that composes two
+   endpoints, the receiver's SACK generation and the timers; it is observed by the
+   two-endpoint simulator (fault prefix, then fault-free delivery and timer firings until
+   quiescence) on every run.  Real time (RTO values) is outside every theorem. *)
 
 (* non-vacuity: 5 chunks, SACKs with a gap report three times -> fast retransmit,
    then T3, then everything acknowledged: the invariant's hypotheses are met and the
@@ -76,3 +103,15 @@ Proof.
   - repeat constructor; unfold bok; cbn; try reflexivity; discriminate.
   - vm_compute. repeat split.
 Qed.
+
+(* non-vacuity of theorem 4: after sends, a gap report and a T3 expiry, three inputs of the
+   continuation empty the queues *)
+Example C02_drain_example :
+  let c t := mkSc t 1 0 false true true 1200 false false false 0 0 None None in
+  let ins := [ISendMsg [c 10; c 11; c 12]; ISendMsg [c 13; c 14; c 15; c 16; c 17]; ISack 10 [(2, 2)] 0; IT3 5] in
+  wf_ord_run 9 100 (init 10 1048576) ins /\
+  let s := fst (run (init 10 1048576) ins) in
+  (length (sentq s), length (outq s)) = (5, 2)%nat /\
+  length (drain (2 * length (sentq s ++ outq s)) s) = 3%nat.
+Proof. cbv zeta. split; [|vm_compute; split; reflexivity]. vm_compute. intuition (try discriminate). Qed.
+
